@@ -109,6 +109,8 @@ func main() {
 		fatalf("usage")
 	}
 	switch os.Args[1] {
+	case "child":
+		childMain()
 	case "gen":
 		if len(os.Args) != 5 {
 			fatalf("gen <prop> <tier> <seed>")
@@ -119,6 +121,7 @@ func main() {
 		}
 		seed, _ := strconv.ParseUint(os.Args[4], 10, 64)
 		g(os.Args[3], &rng{s: seed*0x9e3779b97f4a7c15 + 1})
+		closeChild()
 	case "one":
 		emit(os.Args[2], os.Args[3:]...)
 	case "lines": // re-run case lines from stdin (replay): only the part before " => " is used
@@ -139,6 +142,7 @@ func main() {
 				emit(f[0], f[1:]...)
 			}
 		}
+		closeChild()
 	default:
 		fatalf("unknown subcommand")
 	}
